@@ -1,0 +1,63 @@
+//go:build verif
+
+// Contracts checked by /verif/govc (comment-only file; compiled only with -tags verif).
+
+package directive
+
+//@ func (Directive).Type
+//@   inline
+//@ func (Directive).NamedParameter
+//@   inline
+//@ func (*Directive).AppendChild
+//@   inline
+//@ func (Directive).String
+//@   inline
+//@ func (Enumeration).IsAllowedForRootContext
+//@   inline
+//@ func (Enumeration).IsHTTPRequestMethod
+//@   inline
+//@ func (Coords).File
+//@   inline
+//@ func (Coords).Begin
+//@   inline
+//@ func NewCoords
+//@   inline
+
+// The table of keyword texts (ss) is written only by its initialiser (C16 global-store scan); it has 30 entries.
+//@ func (Enumeration).String
+//@   trusted
+//@   pure
+//@   requires 0 <= de && de <= 29
+
+// allowedCtx is the repository's own parent/child table read as a relation (its cells are unit-tested one by one;
+// C06 is about the walk). The table is written only by its initialiser (C16 global-store scan).
+//@ specfn allowedCtx(p int, c int) bool
+//@ func (Enumeration).IsAllowedForDirectiveContext
+//@   trusted
+//@   pure
+//@   ensures ret == allowedCtx(de, child)
+
+//@ pred DirWF(d *Directive) = d != nil && d.keywordCoords.file != nil && d.keywordCoords.begin <= len(d.keywordCoords.file.content)
+//@     && !isnil(d.includeTracer) && 0 <= d.type_ && d.type_ <= 29
+
+//@ iface directive.IncludeTracer.AddIncludeTraceToError(je)
+//@   modifies je.includeTrace
+//@   ensures true
+
+//@ func (Directive).makeError
+//@   tag C02 C01
+//@   requires file != nil && begin <= len(file.content) && !isnil(d.includeTracer)
+//@   modifies nothing
+//@   ensures ret != nil && ret.file == file && ret.index == begin
+
+//@ func (Directive).KeywordError
+//@   tag C02 C01
+//@   requires d.keywordCoords.file != nil && d.keywordCoords.begin <= len(d.keywordCoords.file.content) && !isnil(d.includeTracer)
+//@   modifies nothing
+//@   ensures ret != nil && ret.file == d.keywordCoords.file && ret.index == d.keywordCoords.begin
+
+//@ func (Directive).ParameterError
+//@   tag C02 C01
+//@   requires d.keywordCoords.file != nil && d.keywordCoords.begin <= len(d.keywordCoords.file.content) && !isnil(d.includeTracer)
+//@   modifies nothing
+//@   ensures ret != nil && ret.file == d.keywordCoords.file && ret.index == d.keywordCoords.begin
